@@ -49,6 +49,8 @@ PROP = {
         # core/client
         {"name": "TestVerifC03_Regress_ClientSendFragWrap", "unit": C, "kind": "plain"},
         {"name": "TestVerifC03_ClientUDP", "unit": C, "quick": 1000, "shards": 2, "thorough": 12000, "shards_thorough": 8},
+        {"name": "TestVerifC03_ClientCloseRace", "unit": C, "quick": 150, "thorough": 1500, "shards_thorough": 4},
+        {"name": "TestVerifC03_ClientCloseRaceDetector", "unit": C, "race": True, "quick": 40, "thorough": 400, "shards_thorough": 2},
         # extras/sniff/internal/quic
         {"name": "TestVerifC03_Regress_ShortHeaderSample", "unit": Q, "kind": "plain"},
         {"name": "TestVerifC03_QUICHeaderGrammar", "unit": Q, "quick": 5000, "thorough": 60000, "shards_thorough": 4},
